@@ -175,6 +175,10 @@ def truth(test: ast.AST, assume: Dict[str, bool]) -> Optional[bool]:
     return None
 
 
+def mentions_name(node: ast.AST, name: str) -> bool:
+    return any(isinstance(n, ast.Name) and n.id == name for n in ast.walk(node))
+
+
 def mentions(node: ast.AST, name: str) -> bool:
     return any(isinstance(n, ast.Name) and n.id == name for n in ast.walk(node))
 
@@ -429,7 +433,11 @@ class Counter:
         e: Emis = {}
         if self.classify is not None and isinstance(s, (ast.Assign, ast.AugAssign, ast.AnnAssign)):
             ev = self.classify(s, st.func)
-            if ev:
+            if isinstance(ev, dict):
+                e = e_add(e, ev)
+                for k in ev:
+                    self.event_nodes.setdefault(k, []).append((st.func, s))
+            elif ev:
                 e = e_add(e, {ev: c_const(1)})
                 self.event_nodes.setdefault(ev, []).append((st.func, s))
         for ch in ast.iter_child_nodes(s):
@@ -515,6 +523,10 @@ class Counter:
         fn = c.func
         if self.classify is not None:
             ev = self.classify(c, st.func)
+            if isinstance(ev, dict):
+                for k in ev:
+                    self.event_nodes.setdefault(k, []).append((st.func, c))
+                return ev
             if ev:
                 self.event_nodes.setdefault(ev, []).append((st.func, c))
                 return {ev: c_const(1)}
@@ -793,6 +805,10 @@ class Accumulator:
             m = match(f"{self.name} + $x", node.value)
             if m:
                 return m['x']
+            v = node.value
+            if not mentions_name(v, self.name) and not (const_str(v) == '' or (isinstance(v, ast.List) and not v.elts)) \
+                    and not isinstance(v, (ast.List, ast.ListComp)):
+                return v            # initial content of the accumulator (`res = separator`)
         if isinstance(node, ast.Call) and isinstance(node.func, ast.Attribute) and node.func.attr == 'append' \
                 and isinstance(node.func.value, ast.Name) and node.func.value.id == self.name and len(node.args) == 1:
             return node.args[0]
